@@ -75,3 +75,27 @@ claim("C24", SM,
       "histories over 24 addresses are validated by TLC.",
       "TLC; gcc; ctypes access to the vm_mngr_t inside the Vm object; no address wrap-around at 2^64",
       "DESIGN.md 4.4, 5/C24, B.4", "VmMngr")
+
+EXPRJ = ("TLA+ reference semantics (BV.tla / Expr.tla, self-checked exhaustively by TLC against integer arithmetic) used as the "
+         "deciding oracle: results recorded from the real code are judged by TLC item by item (trace validation of "
+         "one-step Call/Return traces), including exhaustively enumerated small instances")
+
+claim("C01", EXPRJ,
+      "Expr.tla gives every IR operator its bit-level meaning; each of the three shipped simplifiers is run on every "
+      "one-operator (and nested, width<=2) expression over {a,b,0,1,-1} at widths 1..3 under ALL valuations, and on seeded "
+      "random and rule-shaped trees at widths 1..128 under boundary+random valuations; TLC judges width, well-sizedness and "
+      "value equality of every call result and of every individual rewrite step (so a rejection names the rule); an "
+      "exception or an exhausted budget has no action in the spec and is a violation.",
+      "TLC; BV/Expr transcription (self-checked by BVTest.tla); memory modelled as a fixed function of the address; "
+      "operators outside Expr.tla (float, segm, ...) are not generated", "DESIGN.md 4.1-4.2, 5/C01", "ExprJudge")
+claim("C02", EXPRJ,
+      "Same recorded Call/Return traces as C01: every call Simp(e)->r is followed by Simp(r)->r2 and TLC requires r2 = r "
+      "(canonical identity); termination is decided per input with a budget of 200000 rule applications / 20 s (a call "
+      "that exhausts it is a violation).",
+      "termination is decided per explored input with a budget, not proved", "DESIGN.md 5/C02", "ExprJudge")
+claim("C03", EXPRJ,
+      "TLC evaluates BV.tla's definition for every operator with a folding rule on ALL operand values at widths 1..4 (quick) / "
+      "1..5 (thorough) incl. shift/rotate counts >= width and INT_MIN/-1, and on boundary+random tuples at widths up to 128; "
+      "the value miasm's simplifiers fold the constant expression to must be equal; BV.tla itself is checked exhaustively "
+      "against integer arithmetic by BVTest.tla.",
+      "TLC; wide widths are sampled (boundary + random), small widths exhaustive", "DESIGN.md 4.1, 5/C03", "ExprJudge")
